@@ -155,7 +155,12 @@ pub fn run(_params: &Params) {
   }
   let mut next_index: Vec<usize> = models.iter().map(|_| ctx::choose(64)).collect();
   let mut issued: Vec<(Credential, usize, usize)> = Vec::new(); // (credential with status, list, index)
-  let writes = 3 + ctx::choose(12);
+  let writes = if ctx::chance(1, 50) {
+    ctx::stat("probe.long_history");
+    40 + ctx::choose(60)
+  } else {
+    3 + ctx::choose(12)
+  };
   let mut nontrivial = false;
   for step in 0..writes {
     clock.advance(900);
